@@ -72,8 +72,12 @@ def run_case(c, tol=2e-6):
 
 def patrol(chk, n):
     bad, dist, crashed, npts = 0, {}, {}, 0
-    for _ in range(n):
-        c = gen_case(chk.rng, chk.tier == "quick")
+    # channels whose convolution point is not x are in every run: massive CC (x/lambda) and intrinsic (x/eta)
+    fixed = [dict(proc="CC", kind="F2", fns="FFNS", heavyness="charm", nfff=3, pto=1, grid=0, xs=[0.015625, 0.3], Q2=6.0),
+             dict(proc="NC", kind="F2", fns="FFNS", heavyness="charm", nfff=4, pto=0, grid=2, xs=[0.1, 0.27], Q2=9.0),
+             dict(proc="CC", kind="F3", fns="FFNS", heavyness="bottom", nfff=3, pto=1, grid=1, xs=[0.05, 0.42], Q2=40.0)]
+    for it in range(n + len(fixed)):
+        c = fixed[it] if it < len(fixed) else gen_case(chk.rng, chk.tier == "quick")
         k = "%s/%s_%s/%s/pto%d/grid%d" % (c["proc"], c["kind"], c["heavyness"], c["fns"], c["pto"], c["grid"])
         dist[k] = dist.get(k, 0) + 1
         try:
@@ -89,7 +93,7 @@ def patrol(chk, n):
                           "operator entry of %s_%s (%s, %s, PTO %d) at x=%r Q2=%r differs from cp * (C (x) p_j)(cp) accumulated over the partonic channels: %s"
                           % (c["kind"], c["heavyness"], c["proc"], c["fns"], c["pto"], p["x"], c["Q2"], {q: p[q] for q in ("key", "pid", "node", "got", "expected", "rel")}),
                           dict(case=c, problem=p))
-    chk.patrol["entries_vs_reference_quadrature"] = dict(cases=n, points=npts, failures=bad, distribution=dist, crashed_not_counted=crashed,
+    chk.patrol["entries_vs_reference_quadrature"] = dict(cases=n + len(fixed), points=npts, failures=bad, distribution=dist, crashed_not_counted=crashed,
                                                          rule="real Runner + EvaluatedStructureFunction.get_result() against the reference (own Lagrange basis, scipy quadrature of conv_spec, "
                                                               "kernels/weights/convolution points from the real Combiner): every (order,0,0,0) tensor entry, rel 2e-6; x on the lowest node, on an "
                                                               "inner node and between nodes; ZM-VFNS, FFNS light, CC heavy (slow rescaling), intrinsic; three grids (log/linear, degree 2-4)")
